@@ -61,6 +61,9 @@ class Fixture:
         rc, self.b = L.create_block(self.cif, 'b')
         npk, nit = shape
         self.names = ['_i%d' % j for j in range(nit)]
+        if serial % 7 == 3:
+            # a data name at the length limit (2048 characters; block and frame codes end at 2043): 2044 .. 2048
+            self.names[-1] = self.names[-1] + 'w' * (2044 + (serial // 7) % 5 - len(self.names[-1]))
         self.norms = list(self.names)
         if npk == 'scalar':
             self.cat = ''
